@@ -205,6 +205,13 @@ impl<B> ResponseBody<B> {
 }
 """
 
+def model_text():
+    """the `dyn Error` model and the meaning of errors, for units that link the contracts of this one"""
+    a = SHIMS[:SHIMS.index('pub trait ErrDowncast')]
+    b = 'pub uninterp spec fn hyper_src(h: hyper::Error) -> Option<DynError>;\n'
+    return a + b + SPEC
+
+
 def build():
     u = Unit('errmap', ['C09', 'C14', 'C04', 'C02'])
     common.http_base(u)
@@ -260,6 +267,10 @@ impl Status {
          closures={0: dict(params='err: Box<DynError>', ret='(x: Status)', ensures=['x.code == Code::Unknown'])},
          ensures=[Clause('F1_a_recognised_error_becomes_what_it_means', 'box_meaning(*err) matches Some(m) ==> agrees(r, m)'),
                   Clause('F2_anything_else_is_unknown', 'box_meaning(*err) is None ==> r.code == Code::Unknown', ['C04'])])
+    u.fn(S, 'from_error_generic', within=W,
+         sig_edits=[lambda t: t.sub_code('R12', r"impl Into<Box<dyn Error \+ Send \+ Sync \+ 'static>>", 'Box<DynError>')],
+         ensures=[Clause('G1_a_recognised_error_becomes_what_it_means', 'box_meaning(*err) matches Some(m) ==> agrees(r, m)'),
+                  Clause('G2_anything_else_is_unknown', 'box_meaning(*err) is None ==> r.code == Code::Unknown', ['C04'])])
     u.close('}')
     u.fn(S, 'find_status_in_source_chain', sig_edits=[boxed],
          # the loop's own `err` shadows the parameter, and naming the parameter in the invariant crashes this Verus (mode checker):
